@@ -119,6 +119,7 @@ func loadProg(repo string) *Prog {
 	}
 	p.CG = vta.CallGraph(all, cha.CallGraph(prog))
 	p.resolveRoles()
+	p.resolveFields()
 	return p
 }
 
